@@ -236,7 +236,8 @@ def evaluate__normalize_space(self: XPathFunction, context: ta.ContextType = Non
         arg = self.string_value(self.get_argument(context, default_to_context=True, default=''))
     else:
         arg = self.get_argument(context, default_to_context=True, default='', cls=str)
-    return ' '.join(arg.strip().split())
+    # only XML whitespace (#x20, #x9, #xD, #xA) is stripped and collapsed
+    return ' '.join(x for x in arg.translate({9: ' ', 10: ' ', 13: ' '}).split(' ') if x)
 
 
 @method(function('starts-with', nargs=2,
